@@ -58,9 +58,7 @@ func Values(vs []*variable.Value) string {
 
 // Vars prints a variable map sorted by name.
 func Vars(m map[string]variable.Value) string {
-	if m == nil {
-		return "nil"
-	}
+	// (a nil map and an empty map are the same state: no variables)
 	keys := make([]string, 0, len(m))
 	for k := range m {
 		keys = append(keys, k)
@@ -76,9 +74,6 @@ func Vars(m map[string]variable.Value) string {
 
 // Counts prints a visit-count map sorted by name.
 func Counts(m map[string]int) string {
-	if m == nil {
-		return "nil"
-	}
 	keys := make([]string, 0, len(m))
 	for k := range m {
 		keys = append(keys, k)
